@@ -18,6 +18,11 @@ dict.map, set.map, entries/elements captured by a for_each callback), `Mutate` c
 every step ALL registers are observed. A mutation that shows through another register is an `independence` violation.
 The register made or changed by a step is also compared as text (as_str) with the same value built from a literal.
 
+Dicts and sets are also instantiated with awkward string keys ("wstr": _type, __index, __eq, __tostring, __newindex, __add, n,
+"1", "nil", "true", "", "(1, 2)"), each tried absent and present. Callbacks handed to map / filter / fold / find / for_each
+(int lists) and to dict.map / set.map / dict.for_each / set.for_each (SyltShare) also come RE-ENTRANT: they call the library on
+the container being traversed and on other containers; the model gives the expected value.
+
 div and floor are read with floor semantics on all operands (div(a, b) = floor(a / b), a in -7..7, b in -3..3 \ {0}).
 
 A transition whose history already left the implementation in a wrong state is not judged (the earlier operation
@@ -32,6 +37,7 @@ import vlib
 PID = "C18"
 
 ACTIONS = ["ListLit", "Push", "Prepend", "Pop", "Get", "Set", "LenL", "Map", "Filter", "Fold", "Find", "Contains", "Last",
+           "ReMap", "ReFilter", "ReFold", "ReFind", "ForEach",
            "DictNew", "DictFromList", "DictUpdate", "DictGet", "DictRemove", "DictLen", "DictContainsKey",
            "SetNew", "SetFromList", "SetAdd", "SetContains", "SetRemove", "SetLen",
            "HMin", "HMax", "HAbs", "HClamp", "HSign", "HDiv", "HFloor", "HOrDefault", "HIsJust", "HIsNone"]
@@ -380,7 +386,15 @@ def run(ctx):
         vlib.tool_error("vacuity: div universe has %d cases" % len(divs))
     if len([c for c in cases if c["op"]["op"] == "floor" and c["arg"] == "negative-fraction"]) < 2:
         vlib.tool_error("vacuity: floor is not exercised on negative fractions")
+    awkward = [c for c in cases if c["ty"] == "wstr"]
+    if len(awkward) < 3000 or len({c["op"]["op"] + c["arg"] for c in awkward}) < 14:
+        vlib.tool_error("vacuity: only %d transitions with awkward string keys" % len(awkward))
+    reentrant = [c for c in cases if c["arg"] == "reentrant"]
+    if len(reentrant) < 400 or len([c for c in reentrant if c["op"]["op"] == "find" and c["res"]["tag"] == "Just"]) < 40:
+        vlib.tool_error("vacuity: only %d transitions with re-entrant callbacks" % len(reentrant))
     share = collect(rsh)
+    if len([c for c in share if c["op"]["op"] in ("dict.map", "set.map", "entries", "elems") and c["op"]["a"][0]["name"] in ("reget", "reself", "first", "re")]) < 200:
+        vlib.tool_error("vacuity: re-entrant dict / set callbacks missing from SyltShare")
     if len(share) < 10000:
         vlib.tool_error("vacuity: only %d SyltShare transitions" % len(share))
     guards = share_guards(share)
@@ -440,6 +454,7 @@ def run(ctx):
            negative_controls_rejected=n_neg, exhaustive=True, known_findings_hit=verdicts.known_hits,
            rule="every transition of the list/dict/set models (length/keys <= 3; element types int, str, (int, int), (str, str)) "
                 "and every helper application over ints -3..3 and half-steps in [-2, 2] (div: a in -7..7, b in -3..3 without 0, floor semantics); "
+                "dicts / sets also over 12 awkward string keys (<= 1 key per dict, <= 2 per set); int lists also with re-entrant callbacks; "
                 "every transition of the several-register model SyltShare (r1 a list literal of length <= 2 over 2 (thorough 3) values of int / (int, int), "
                 "<= 3 registers, <= 2 mutations, <= 3 steps after the literal for lists and <= 4 for dicts and sets; all registers observed after "
                 "every step); every transition applies one library operation to a "
